@@ -19,7 +19,7 @@ class VmHarness:
     def close(self):
         shutil.rmtree(self.dir, ignore_errors=True)
 
-    def run(self, src=None, file=None, mem=5000, stack=200, gc=0, execs=1, args=(), trace=True, maxlines=400000, timeout=120, entry="main", cwd=None):
+    def run(self, src=None, file=None, mem=5000, stack=200, gc=0, execs=1, args=(), trace=True, maxlines=400000, timeout=120, entry="main", cwd=None, pre=(), calls=None):
         """run the implementation; returns dict(paths, stdout bytes, rc, result lines)"""
         with self._lock:
             k = next(self._cnt)
@@ -28,6 +28,10 @@ class VmHarness:
         cmd = [self.exe, "-m", str(mem), "-s", str(stack), "-g", str(gc), "-x", str(execs), "-n", entry, "-D", d, "-R", r]
         if trace:
             cmd += ["-T", t, "-L", str(maxlines)]
+        for ps in pre:
+            cmd += ["-P", ps]
+        if calls:
+            cmd += ["-c", calls]
         cmd += (["-f", file] if file else ["-e", src])
         cmd += list(args)
         env = dict(os.environ, ASAN_OPTIONS="detect_leaks=0:abort_on_error=0:allocator_may_return_null=1", UBSAN_OPTIONS="print_stacktrace=0")
@@ -38,7 +42,7 @@ class VmHarness:
             rc, out, err = -999, e.stdout or b"", "timeout"
         res = open(r).read().split("\n") if os.path.exists(r) else []
         return dict(dump=d, trace=t if trace else None, res=r, rc=rc, out=out, err=err, lines=res, tag=tag,
-                    cfg=dict(mem=mem, stack=stack, gc=gc, execs=execs))
+                    cfg=dict(mem=mem, stack=stack, gc=gc, execs=("calls" if calls else execs)))
 
     def model(self, run, timeout=300):
         tr = run["trace"] if run["trace"] and os.path.exists(run["trace"]) else "-"
